@@ -23,12 +23,18 @@ CP_CLASS = {97: [65, 97, 122, 48, 45, 95, 126, 33], 32: [32], 9: [9], 13: [13], 
             128512: [128512, 65536, 0x10FFFF]}
 
 
+class Accepted(Exception):
+    """the key passed validation but there was nothing to transmit it to (no server in rotation)"""
+
+
 def observe(fn, key, unicode, prefix):
     from pymemcache.exceptions import MemcacheIllegalInputError
     try:
         out = fn(key)
     except MemcacheIllegalInputError:
         return "illegal", []
+    except Accepted:
+        return "accepted", []
     except Exception as e:   # noqa
         return "other:" + type(e).__name__, []
     if not isinstance(out, bytes):
@@ -48,6 +54,42 @@ def make_vias(unicode, prefix):
     hc = HashClient([("mc1", 11211)], socket_module=net, allow_unicode_keys=unicode, key_prefix=pb)
     hci = HashClient([("mc1", 11211)], socket_module=net, allow_unicode_keys=unicode, key_prefix=pb, ignore_exc=True)
     pci = PooledClient(("mc1", 11211), socket_module=net, allow_unicode_keys=unicode, key_prefix=pb, ignore_exc=True)
+    cli = Client(("mc1", 11211), socket_module=net, allow_unicode_keys=unicode, key_prefix=pb, ignore_exc=True)
+    # HashClients with nothing in the rotation (what failover leaves when every server is down): validation still comes first
+    dead = {}
+    for ign in (False, True):
+        d = HashClient([], socket_module=net, allow_unicode_keys=unicode, key_prefix=pb, ignore_exc=ign)
+        dead[ign] = d
+
+    def via_dead(client, ign):
+        from pymemcache.exceptions import MemcacheError, MemcacheIllegalInputError
+
+        def f(key):
+            net.begin_call(1)
+            net.wire_log.clear()
+            try:
+                client.get(key)
+            except MemcacheIllegalInputError:
+                raise
+            except MemcacheError as e:
+                if "All servers" in str(e):
+                    raise Accepted()
+                raise
+            if ign and not net.wire_log:
+                raise Accepted()
+            raise RuntimeError("a client without servers sent something or returned without ignore_exc")
+        return f
+
+    def via_get_many(client):
+        def f(key):
+            net.begin_call(1)
+            net.wire_log.clear()
+            client.get_many(["L", key])
+            data = b"".join(d for _, d in net.wire_log)
+            if not (data.startswith(b"get ") and data.endswith(b"\r\n")):
+                raise RuntimeError("nothing sent and nothing raised" if not data else "unexpected wire bytes %r" % data[:40])
+            return data[4:-2].split(b" ", 1)[1] if b" " in data[4:-2] else b""
+        return f
 
     def via_get(client):
         def f(key):
@@ -76,6 +118,11 @@ def make_vias(unicode, prefix):
         "hash-get": via_get(hc),
         "hash-get-ignore_exc": via_get(hci),
         "pooled-get-ignore_exc": via_get(pci),
+        "client-get-ignore_exc": via_get(cli),
+        "pooled-get_many-ignore_exc": via_get_many(pci),
+        "client-get_many-ignore_exc": via_get_many(cli),
+        "hash-get-no-server": via_dead(dead[False], False),
+        "hash-get-no-server-ignore_exc": via_dead(dead[True], True),
         "client-delete": via_delete(cl),
         "pooled-delete": via_delete(pc),
     }
@@ -115,10 +162,10 @@ def main(tier, rep):
         expect.append(expected)
 
     seed = common.seed()
-    # PooledClient(ignore_exc=True).get(<illegal key>) swallows the rejection (returns the default, sends nothing)
-    # where Client raises: outside observe_at of C20 (check_key / check_key_helper) and arguably what ignore_exc
-    # documents; reported in DESIGN.md as an observation, not used for verdicts.
-    VIAS = ["helper", "client", "pooled", "hash-get", "client-delete", "hash-get-ignore_exc", "pooled-delete"]
+    # ignore_exc must not turn a rejected key into a miss, and an empty rotation must not hide the rejection either
+    VIAS = ["helper", "client", "pooled", "hash-get", "client-delete", "hash-get-ignore_exc", "pooled-delete",
+            "client-get-ignore_exc", "pooled-get-ignore_exc", "hash-get-no-server", "hash-get-no-server-ignore_exc",
+            "pooled-get_many-ignore_exc", "client-get_many-ignore_exc"]
     n = 0
     for row in table:
         cls = BYTE_CLASS if not row["isstr"] else CP_CLASS
@@ -181,9 +228,9 @@ def main(tier, rep):
             cl = ",".join(sorted(c.strip().strip('"') for c in clauses.strip("{}").split(",")))
             klass = "".join(byte_class_name(x) for x in rc["u"][:4]) + ("+" if len(rc["u"]) > 4 else "")
             sig = f"C20/{rc['via']}/{kind}/{cl}/{klass if len(rc['u']) <= 4 else 'len' + str(len(rc['u']))}"
-            if rc["via"] == "pooled-get-ignore_exc" and cl == "C20-rejection-is-MemcacheIllegalInputError" \
+            if rc["via"].endswith("-ignore_exc") and cl == "C20-rejection-is-MemcacheIllegalInputError" \
                     and rc["verdict"] == "other:RuntimeError":
-                sig = "C20/pooled-get-ignore_exc/rejection-swallowed"
+                sig = f"C20/{rc['via']}/rejection-swallowed"
             rep.violation(sig,
                           f"key {rc['u'][:12]}{'...' if len(rc['u']) > 12 else ''} ({kind}, unicode={rc['unicode']}, "
                           f"prefix len {len(rc['prefix'])}) via {rc['via']}: verdict {rc['verdict']}: {cl}", rc)
@@ -193,7 +240,7 @@ def main(tier, rep):
     for i, (rc, ex) in enumerate(zip(records, expect)):
         if ex is None or i in rejected_records:
             continue
-        if (rc["verdict"] == "ok") != ex:
+        if (rc["verdict"] in ("ok", "accepted")) != ex:
             bad_abs += 1
     if bad_abs:
         raise common.MachineryError(f"{bad_abs} concretised keys disagree with their class verdict although TLC accepted them: "
@@ -209,7 +256,7 @@ def main(tier, rep):
     for i in (5, len(records) // 2, len(records) - 3):
         rep.sample({k: (v if not isinstance(v, list) or len(v) < 12 else v[:12] + ["..."]) for k, v in records[i].items()})
     rep.assumptions += ["str keys are well-formed Unicode (no lone surrogates)", "scope: prefixed form non-empty",
-                        "ignore_exc is off (with it PooledClient.get swallows the rejection -- reported as an observation in DESIGN.md)"]
+                        "validation through operations: get / get_many / delete on the three classes, with and without ignore_exc, with an empty rotation"]
 
 
 BATCH = 500
